@@ -99,10 +99,25 @@ fn judge_mesh(case: &Case, l: &mut Local) {
     l.distinct(hash_of(&("mesh", case.which)));
     let normals: Vec<Option<Vector3>> = f.iter().map(|t| tri_normal(&v[t[0] as usize], &v[t[1] as usize], &v[t[2] as usize])).collect();
     let g = [-1.5, -0.5, 0.3, 0.5, 1.0, 1.7, 2.5];
+    let mut queries = Vec::new();
     for x in g {
         for y in g {
             for z in g {
-                let q = Point3::new(x, y, z);
+                queries.push(Point3::new(x, y, z));
+            }
+        }
+    }
+    // measured points very close to the nominal: off every vertex along a few directions
+    for a in v.iter() {
+        for d in [Vector3::new(1.0, 0.0, 0.0), Vector3::new(0.0, 0.0, -1.0), Vector3::new(1.0, 1.0, 1.0).normalize(), Vector3::new(-1.0, 0.5, -0.25).normalize()] {
+            for eps in [1e-7, 1e-4, 5e-4, 1e-2] {
+                queries.push(a + d * eps);
+            }
+        }
+    }
+    {
+        {
+            for q in queries {
                 l.eval();
                 let mut best = f64::MAX;
                 let mut cps = Vec::new();
@@ -121,7 +136,7 @@ fn judge_mesh(case: &Case, l: &mut Local) {
                 let dl = m.measure_point_deviation(&q, DistMode::ToPlane);
                 l.outcome(hash_of(&(dp.value() > 0.0, one_normal)));
                 l.bucket(if one_normal { "nearest face unique up to normal" } else { "nearest point on an edge or vertex" });
-                l.check("mesh point-mode deviation magnitude equals the distance", "", (dp.value().abs() - best).abs() <= 1e-9, mk, || format!("q {:?}: {} vs {}", q, dp.value(), best));
+                l.check("mesh point-mode deviation magnitude equals the distance", "", if best < 2e-6 { dp.value().abs() <= best + 1e-9 } else { (dp.value().abs() - best).abs() <= 1e-9 }, mk, || format!("q {:?}: {} vs {}", q, dp.value(), best));
                 if best > 1e-6 {
                     let rec = dp.a + dp.direction.into_inner() * dp.value();
                     l.check("mesh point mode: a + direction * value reconstructs the measured point", "", d3(&rec, &q) <= 1e-9 && d3(&dp.b, &q) <= 1e-12, mk, || format!("q {:?}: {:?}", q, rec));
